@@ -27,7 +27,7 @@ MODULES = ["BMV.Props.C17"]
 EXE = "oracle-c17"
 GEN = os.path.join(vlib.LEAN, "BMV", "Gen", "GoStmts.lean")
 KINDS = ["proc", "disp", "emu", "req", "pool"]
-SIM_MODES = ("seq", "seqerr", "par", "fit", "raw", "seqdyn", "pardyn")
+SIM_MODES = ("seq", "seqerr", "par", "fit", "raw", "seqdyn", "pardyn", "fiterr", "spserr")
 REGS = ("types", "matchers", "opcodes")   # process-wide registries: bmnumbers.AllTypes/AllMatchers, procbuilder.Allopcodes
 POOL_DRIVER = os.path.join(vlib.HARNESS, "cmd", "c17", "simfinetune_driver_test.go.txt")
 CALIBRATION = ("reqhold", "reqrelease")   # the harness itself keeps servers open, then closes them
@@ -80,7 +80,7 @@ def parse(impl_text, model_text):
 def spec_of(b):
     d = b["b"]
     if d["mode"] == "pool":
-        return "pool,%s:%s:%s:%s" % (d["W"], d["n"], d["P"], d["R"])
+        return "pool,%s:%s:%s:%s:%s" % (d["W"], d["n"], d["P"], d["R"], d.get("X", "0"))
     mach = d.get("mach", "-")
     if d["mode"] not in SIM_MODES:
         mach = "-"
@@ -183,6 +183,11 @@ def pool_spec(seed, thorough):
     for W in (4, 1, 0, -r.randint(1, 5)):
         for n in ns:
             out.append("%d:%d:%d:%d" % (W, n, r.randint(1, 3), r.randint(1, 4)))
+    # an outputs file longer than the inputs file, and an empty inputs file (a shorter outputs file or a
+    # malformed record panic / hang FitnessFunction on the unchanged tree: not part of the batches)
+    for W in (1, 4):
+        out.append("%d:%d:%d:%d:%d" % (W, 5, r.randint(1, 2), r.randint(1, 4), r.randint(1, 3)))
+        out.append("%d:%d:%d:0:%d" % (W, 3, r.randint(1, 2), r.randint(0, 2)))
     return ",".join(out)
 
 
@@ -216,7 +221,7 @@ def shrink(hbin, b, cfg, listed):
     cands = []
     if mode == "pool":
         try:
-            impl, model = run_pool(build_pool_driver(), "%s:1:1:1" % d["W"])
+            impl, model = run_pool(build_pool_driver(), "%s:1:1:%s:%s" % (d["W"], min(1, int(d["R"])), d.get("X", "0")))
             _, bs, _ = parse(impl, model)
             if bs and bs[0]["obs"] is not None and judge(cfg, bs[0], listed)[0] == "leak":
                 return bs[0], spec_of(bs[0]), judge(cfg, bs[0], listed)[1]
@@ -282,7 +287,10 @@ def run(rep):
     impl_all, batches, errors = "", [], []
     cfg = {}
     # corpus first
+    pool_corpus = [sp[5:] for sp in corpus_specs() if sp.startswith("pool,")]
     for spec in corpus_specs():
+        if spec.startswith("pool,"):
+            continue   # run with the simfinetune driver below
         impl, model = run_harness(hbin, ["replay", spec], 600)
         c, bs, es = parse(impl, model)
         cfg = c or cfg
@@ -295,7 +303,7 @@ def run(rep):
     errors += es
     # cmd/simfinetune's worker pool (FitnessFunction), worker counts 4 / 1 / 0 / negative
     pbin = build_pool_driver()
-    impl, model = run_pool(pbin, pool_spec(rep.seed, thorough), 1200 if thorough else 300)
+    impl, model = run_pool(pbin, ",".join(pool_corpus + [pool_spec(rep.seed, thorough)]), 1200 if thorough else 300)
     c, bs, es = parse(impl, model)
     batches += bs
     errors += es
